@@ -177,9 +177,13 @@ def _public_worker(job):
     R = H.R
     D = _G["D"]
     p, base = wire.header_samples(R, every=_G["tier"] == "thorough")[k]
-    S, D_, Pr = z3.BitVec("src", 8), z3.BitVec("dst", 8), z3.BitVec("prio", 3)
+    S, D_, Pr, D0 = z3.BitVec("src", 8), z3.BitVec("dst", 8), z3.BitVec("prio", 3), z3.BitVec("pre_dst", 8)
 
     def h():
+        # prelude: the same kind of message to ANOTHER (symbolic) destination from an earlier encoder instance - nothing an
+        # encoder did before may leak into the packets of this message (process-wide memoisation of headers, seeded C06-i)
+        m_pre = wire.make_message(R, p, base, SymInt(z3.ZeroExt(1, S), 8), SymInt(z3.ZeroExt(1, D0), 8), SymInt(z3.ZeroExt(1, Pr), 3))
+        wire.encode_packets(R, R.encoder.NMEA2000Encoder(), fmt, m_pre)
         m = wire.make_message(R, p, base, SymInt(z3.ZeroExt(1, S), 8), SymInt(z3.ZeroExt(1, D_), 8), SymInt(z3.ZeroExt(1, Pr), 3))
         enc = R.encoder.NMEA2000Encoder()
         pks = wire.encode_packets(R, enc, fmt, m)
@@ -204,7 +208,7 @@ def _public_worker(job):
             continue
 
         def w(mm):
-            return {"kind": "public", "fmt": fmt, "sample": k, "every": _G["tier"] == "thorough", "src": mm.eval(S, True).as_long(), "dst": mm.eval(D_, True).as_long(), "prio": mm.eval(Pr, True).as_long()}
+            return {"kind": "public", "fmt": fmt, "sample": k, "every": _G["tier"] == "thorough", "src": mm.eval(S, True).as_long(), "dst": mm.eval(D_, True).as_long(), "prio": mm.eval(Pr, True).as_long(), "pre_dst": mm.eval(D0, True).as_long()}
         if pa.kind != "return" or pa.value[1] is None:
             rep.violation({"kind": "public-path-lost", "fmt": fmt, "def": p.id}, "%s: %s message not returned after encode->decode (%r)" % (fmt, p.id, pa.value if pa.kind != "return" else None), w(m0))
             continue
@@ -327,10 +331,14 @@ def replay(r):
                 problems.append("addressing %r" % (x[:4],))
         return bool(problems), "; ".join(problems[:3])
     if r["kind"] == "public":
+        import importlib
+        importlib.reload(N.encoder)     # process-wide encoder state starts empty for every replay
         fmt = r["fmt"]
         p, base = wire.header_samples(N, every=bool(r.get("every")))[r["sample"]]
         m = wire.make_message(N, p, base, r["src"], r["dst"], r["prio"])
         try:
+            if "pre_dst" in r:
+                wire.encode_packets(N, N.encoder.NMEA2000Encoder(), fmt, wire.make_message(N, p, base, r["src"], r["pre_dst"], r["prio"]))
             pks = wire.encode_packets(N, N.encoder.NMEA2000Encoder(), fmt, m)
             dec = N.decoder.NMEA2000Decoder()
             out = None
